@@ -523,4 +523,281 @@ theorem kl_gramSweep_id (bs xs : List (Core α)) (G : Phi2 α) (ht : IsTensor bs
       funext B R
       simp only [phiFwdRhs, hn, sumTo_one, id]
 
+/-! ### `⟨X, A B⟩`: the AMEn matrix product -/
+
+/-- triple multi-index sum: rows `is`, contracted `kk`, columns `js` -/
+def kl_S3 (ms ks ns : List Nat) (f : List Nat → List Nat → List Nat → α) : α :=
+  sumIdx ms (fun is => sumIdx ks (fun kk => sumIdx ns (fun js => f is kk js)))
+
+theorem kl_S3_congr (ms ks ns : List Nat) {f g : List Nat → List Nat → List Nat → α}
+    (h : ∀ is kk js, f is kk js = g is kk js) : kl_S3 ms ks ns f = kl_S3 ms ks ns g := by
+  have : f = g := funext fun is => funext fun kk => funext (h is kk)
+  rw [this]
+
+theorem kl_S3_sumTo (ms ks ns : List Nat) (n : Nat) (f : List Nat → List Nat → List Nat → Nat → α) :
+    kl_S3 ms ks ns (fun is kk js => sumTo n (fun k => f is kk js k)) =
+    sumTo n (fun k => kl_S3 ms ks ns (fun is kk js => f is kk js k)) := by
+  simp only [kl_S3]
+  rw [← sw_sumIdx_sumTo]
+  apply sw_sumIdx_congr; intro is
+  exact sw_S2_sumTo ks ns n (fun kk js k => f is kk js k)
+
+theorem kl_S3_mul_left (ms ks ns : List Nat) (c : α) (f : List Nat → List Nat → List Nat → α) :
+    kl_S3 ms ks ns (fun is kk js => c * f is kk js) = c * kl_S3 ms ks ns f := by
+  simp only [kl_S3]
+  rw [← sw_sumIdx_mul_left]
+  apply sw_sumIdx_congr; intro is
+  exact sw_S2_mul_left ks ns c (fun kk js => f is kk js)
+
+theorem kl_S3_cons (m k n : Nat) (ms ks ns : List Nat) (f : List Nat → List Nat → List Nat → α) :
+    kl_S3 (m :: ms) (k :: ks) (n :: ns) f =
+    sumTo m (fun i => sumTo k (fun p => sumTo n (fun j =>
+      kl_S3 ms ks ns (fun is kk js => f (i :: is) (p :: kk) (j :: js))))) := by
+  simp only [kl_S3, sumIdx]
+  refine sumTo_congr fun i _ => ?_
+  rw [sw_sumIdx_sumTo ms k (fun is p => sumIdx ks (fun kk => sumTo n (fun j =>
+    sumIdx ns (fun js => f (i :: is) (p :: kk) (j :: js)))))]
+  refine sumTo_congr fun p _ => ?_
+  exact sw_S2_sumTo ms ks n (fun is kk j => sumIdx ns (fun js => f (i :: is) (p :: kk) (j :: js)))
+
+/-- dense contraction `Σ_{is, kk, js} As(is,kk)[a,A'] · Bs(kk,js)[b,B'] · Xs(is,js)[r,R]` of three
+    operator sub-trains between arbitrary rank indices -/
+def kl_T (As Bs Xs : List (Core α)) (r a b R A' B' : Nat) : α :=
+  kl_S3 (modesM As) (modesN As) (modesN Bs)
+    (fun is kk js => chain As (is.zip kk) a A' * chain Bs (kk.zip js) b B' * chain Xs (is.zip js) r R)
+
+theorem kl_T_nil (r a b R A' B' : Nat) :
+    kl_T ([] : List (Core α)) [] [] r a b R A' B' =
+    (if a = A' then 1 else 0) * (if b = B' then 1 else 0) * (if r = R then 1 else 0) := rfl
+
+theorem kl_T_cons (A B X : Core α) (As Bs Xs : List (Core α)) (r a b R A' B' : Nat) :
+    kl_T (A :: As) (B :: Bs) (X :: Xs) r a b R A' B' =
+    sumTo A.m (fun m => sumTo A.n (fun k => sumTo B.n (fun n =>
+      sumTo X.r1 (fun R1 => sumTo A.r1 (fun A1 => sumTo B.r1 (fun B1 =>
+        (A.get a m k A1 * B.get b k n B1 * X.get r m n R1) *
+          kl_T As Bs Xs R1 A1 B1 R A' B')))))) := by
+  unfold kl_T
+  simp only [modesM, modesN, List.map_cons]
+  rw [kl_S3_cons]
+  refine sumTo_congr fun m _ => sumTo_congr fun k _ => sumTo_congr fun n _ => ?_
+  simp only [List.zip_cons_cons, chain]
+  rw [kl_S3_congr (g := fun is kk js => sumTo X.r1 (fun R1 => sumTo A.r1 (fun A1 =>
+        sumTo B.r1 (fun B1 =>
+          (A.get a m k A1 * B.get b k n B1 * X.get r m n R1) *
+            (chain As (is.zip kk) A1 A' * chain Bs (kk.zip js) B1 B' *
+              chain Xs (is.zip js) R1 R)))))]
+  · rw [kl_S3_sumTo]
+    refine sumTo_congr fun R1 _ => ?_
+    rw [kl_S3_sumTo]
+    refine sumTo_congr fun A1 _ => ?_
+    rw [kl_S3_sumTo]
+    refine sumTo_congr fun B1 _ => ?_
+    rw [kl_S3_mul_left]
+  · intro is kk js
+    rw [mul_comm, sumTo_mul_sumTo A.r1 B.r1, sumTo_mul_sumTo X.r1 A.r1]
+    refine sumTo_congr fun R1 _ => sumTo_congr fun A1 _ => ?_
+    rw [← sumTo_mul_left]
+    refine sumTo_congr fun B1 _ => ?_
+    ring
+
+theorem kl_foldFwdAB_inv (As Bs Xs : List (Core α)) (rA rB rX LA LB LX : Nat) (P : Phi3 α)
+    (R A' B' : Nat)
+    (hA : sw_Chained As rA LA) (hB : sw_Chained Bs rB LB) (hX : sw_Chained Xs rX LX)
+    (hlB : Bs.length = As.length) (hlX : Xs.length = As.length)
+    (hR : R < LX) (hA' : A' < LA) (hB' : B' < LB) :
+    foldFwdAB As Bs Xs P R A' B' =
+    sumTo rX (fun r => sumTo rA (fun a => sumTo rB (fun b =>
+      P r a b * kl_T As Bs Xs r a b R A' B'))) := by
+  induction As generalizing Bs Xs rA rB rX P with
+  | nil =>
+    match Bs, Xs, hlB, hlX with
+    | [], [], _, _ =>
+      have e1 : rA = LA := hA
+      have e2 : rB = LB := hB
+      have e3 : rX = LX := hX
+      subst e1 e2 e3
+      simp only [foldFwdAB, kl_T_nil]
+      rw [← kl_delta3 rX rA rB P R A' B' hR hA' hB']
+      refine sumTo_congr fun r _ => sumTo_congr fun a _ => sumTo_congr fun b _ => ?_
+      ring
+  | cons A As ih =>
+    match Bs, Xs, hlB, hlX with
+    | B :: Bs, X :: Xs, hlB, hlX =>
+      obtain ⟨hA0, hAc⟩ := hA
+      obtain ⟨hB0, hBc⟩ := hB
+      obtain ⟨hX0, hXc⟩ := hX
+      have hlB' : Bs.length = As.length := by simpa using hlB
+      have hlX' : Xs.length = As.length := by simpa using hlX
+      simp only [foldFwdAB]
+      rw [ih Bs Xs A.r1 B.r1 X.r1 _ hAc hBc hXc hlB' hlX']
+      subst hA0 hB0 hX0
+      simp only [kl_T_cons, phiFwdAB]
+      simp only [← sumTo_mul_right, ← sumTo_mul_left]
+      rw [kl_comm_3_6]
+      refine sumTo_congr fun r _ => sumTo_congr fun a _ => sumTo_congr fun b _ =>
+        sumTo_congr fun m _ => sumTo_congr fun k _ => sumTo_congr fun n _ =>
+        sumTo_congr fun R1 _ => sumTo_congr fun A1 _ => sumTo_congr fun B1 _ => ?_
+      ring
+
+theorem kl_foldBckAB_inv (As Bs Xs : List (Core α)) (rA rB rX LA LB LX : Nat) (P : Phi3 α)
+    (r a b : Nat)
+    (hA : sw_Chained As rA LA) (hB : sw_Chained Bs rB LB) (hX : sw_Chained Xs rX LX)
+    (hlB : Bs.length = As.length) (hlX : Xs.length = As.length)
+    (hr : r < rX) (ha : a < rA) (hb : b < rB) :
+    foldBckAB As Bs Xs P r a b =
+    sumTo LX (fun R => sumTo LA (fun A' => sumTo LB (fun B' =>
+      P R A' B' * kl_T As Bs Xs r a b R A' B'))) := by
+  induction As generalizing Bs Xs rA rB rX r a b with
+  | nil =>
+    match Bs, Xs, hlB, hlX with
+    | [], [], _, _ =>
+      have e1 : rA = LA := hA
+      have e2 : rB = LB := hB
+      have e3 : rX = LX := hX
+      subst e1 e2 e3
+      simp only [foldBckAB, kl_T_nil]
+      rw [← kl_delta3 rX rA rB P r a b hr ha hb]
+      refine sumTo_congr fun R _ => sumTo_congr fun A' _ => sumTo_congr fun B' _ => ?_
+      simp only [eq_comm (a := a), eq_comm (a := b), eq_comm (a := r)]
+      ring
+  | cons A As ih =>
+    match Bs, Xs, hlB, hlX with
+    | B :: Bs, X :: Xs, hlB, hlX =>
+      obtain ⟨hA0, hAc⟩ := hA
+      obtain ⟨hB0, hBc⟩ := hB
+      obtain ⟨hX0, hXc⟩ := hX
+      have hlB' : Bs.length = As.length := by simpa using hlB
+      have hlX' : Xs.length = As.length := by simpa using hlX
+      have IH : ∀ R1, R1 < X.r1 → ∀ A1, A1 < A.r1 → ∀ B1, B1 < B.r1 →
+          foldBckAB As Bs Xs P R1 A1 B1 =
+          sumTo LX (fun R => sumTo LA (fun A' => sumTo LB (fun B' =>
+            P R A' B' * kl_T As Bs Xs R1 A1 B1 R A' B'))) :=
+        fun R1 hR1 A1 hA1 B1 hB1 =>
+          ih Bs Xs A.r1 B.r1 X.r1 R1 A1 B1 hAc hBc hXc hlB' hlX' hR1 hA1 hB1
+      simp only [foldBckAB, phiBckAB]
+      rw [sumTo_congr (fun R1 hR1 => sumTo_congr (fun A1 hA1 => sumTo_congr (fun B1 hB1 => by
+        rw [IH R1 hR1 A1 hA1 B1 hB1])))]
+      simp only [kl_T_cons]
+      simp only [← sumTo_mul_right, ← sumTo_mul_left]
+      rw [kl_comm_3_3]
+      conv_rhs => rw [kl_comm_3_6]
+      refine sumTo_congr fun m _ => sumTo_congr fun k _ => sumTo_congr fun n _ =>
+        sumTo_congr fun R1 _ => sumTo_congr fun A1 _ => sumTo_congr fun B1 _ =>
+        sumTo_congr fun R _ => sumTo_congr fun A' _ => sumTo_congr fun B' _ => ?_
+      ring
+
+theorem kl_foldFwdAB_append (Al Bl Xl Ar Br Xr : List (Core α)) (P : Phi3 α)
+    (hlB : Bl.length = Al.length) (hlX : Xl.length = Al.length) :
+    foldFwdAB (Al ++ Ar) (Bl ++ Br) (Xl ++ Xr) P = foldFwdAB Ar Br Xr (foldFwdAB Al Bl Xl P) := by
+  induction Al generalizing Bl Xl P with
+  | nil =>
+    match Bl, Xl, hlB, hlX with
+    | [], [], _, _ => rfl
+  | cons A Al ih =>
+    match Bl, Xl, hlB, hlX with
+    | B :: Bl, X :: Xl, hlB, hlX =>
+      simp only [List.cons_append, foldFwdAB]
+      exact ih Bl Xl _ (by simpa using hlB) (by simpa using hlX)
+
+/-- the trilinear form `⟨X, A B⟩ = Σ_{i,j} X[i,j] · (A B)[i,j]` as the code's own left-to-right
+    recursion: the fold of `_compute_phi_fwd_AB` over the whole trains, started from `ones` -/
+def abxSweep (As Bs Xs : List (Core α)) : α := foldFwdAB As Bs Xs ones3 0 0 0
+
+/-- pairing the forward-updated `Phi` with the right `Phi` is pairing the core `V` with `_local_AB` -/
+theorem kl_AB_test (PL PR : Phi3 α) (A B V : Core α) :
+    sumTo V.r1 (fun R => sumTo A.r1 (fun A' => sumTo B.r1 (fun B' =>
+      phiFwdAB PL A B V R A' B' * PR R A' B'))) =
+    sumTo V.r0 (fun r => sumTo A.m (fun m => sumTo B.n (fun n => sumTo V.r1 (fun R =>
+      V.get r m n R * localAB PL PR A B r m n R)))) := by
+  simp only [phiFwdAB, localAB]
+  simp only [← sumTo_mul_right, ← sumTo_mul_left]
+  -- [R A' B' r a b m k n] → [r m n R a b k A' B']
+  rw [kl_sw2, kl_sw1, sumTo_comm]
+  refine sumTo_congr fun r _ => ?_
+  rw [kl_sw4, kl_sw3, kl_sw2, kl_sw1, sumTo_comm]
+  refine sumTo_congr fun m _ => ?_
+  rw [kl_sw5, kl_sw4, kl_sw3, kl_sw2, kl_sw1, sumTo_comm]
+  refine sumTo_congr fun n _ => sumTo_congr fun R _ => ?_
+  rw [kl_comm_2_3]
+  refine sumTo_congr fun a _ => sumTo_congr fun b _ => sumTo_congr fun k _ =>
+    sumTo_congr fun A' _ => sumTo_congr fun B' _ => ?_
+  ring
+
+theorem kl_galerkin_AB (PL : Phi3 α) (A B V : Core α) (Ar Br Xr : List (Core α))
+    (hA : WF Ar A.r1) (hB : WF Br B.r1) (hX : WF Xr V.r1)
+    (hlB : Br.length = Ar.length) (hlX : Xr.length = Ar.length) :
+    foldFwdAB (A :: Ar) (B :: Br) (V :: Xr) PL 0 0 0 =
+    sumTo V.r0 (fun r => sumTo A.m (fun m => sumTo B.n (fun n => sumTo V.r1 (fun R =>
+      V.get r m n R * localAB PL (foldBckAB Ar Br Xr ones3) A B r m n R)))) := by
+  have hcA := sw_Chained_of_WF Ar A.r1 hA
+  have hcB := sw_Chained_of_WF Br B.r1 hB
+  have hcX := sw_Chained_of_WF Xr V.r1 hX
+  rw [← kl_AB_test]
+  simp only [foldFwdAB]
+  rw [kl_foldFwdAB_inv Ar Br Xr A.r1 B.r1 V.r1 1 1 1 _ 0 0 0 hcA hcB hcX hlB hlX
+    (by omega) (by omega) (by omega)]
+  refine sumTo_congr fun R hR => sumTo_congr fun A' hA' => sumTo_congr fun B' hB' => ?_
+  rw [kl_foldBckAB_inv Ar Br Xr A.r1 B.r1 V.r1 1 1 1 _ R A' B' hcA hcB hcX hlB hlX hR hA' hB']
+  simp [sumTo_one, ones3]
+
+/-- the full trilinear sweep is the dense `Σ_{is,js} X[is,js] · Σ_{ks} A[is,ks] · B[ks,js]` -/
+theorem kl_abx_dense (As Bs Xs : List (Core α)) (hA : WF As 1) (hB : WF Bs 1) (hX : WF Xs 1)
+    (hlB : Bs.length = As.length) (hlX : Xs.length = As.length) :
+    abxSweep As Bs Xs =
+    sumIdx (modesM As) (fun is => sumIdx (modesN Bs) (fun js =>
+      full Xs (is.zip js) *
+        sumIdx (modesN As) (fun ks => full As (is.zip ks) * full Bs (ks.zip js)))) := by
+  unfold abxSweep
+  rw [kl_foldFwdAB_inv As Bs Xs 1 1 1 1 1 1 _ 0 0 0 (sw_Chained_of_WF As 1 hA)
+    (sw_Chained_of_WF Bs 1 hB) (sw_Chained_of_WF Xs 1 hX) hlB hlX (by omega) (by omega) (by omega)]
+  simp only [sumTo_one, ones3, one_mul, kl_T, kl_S3, full]
+  apply sw_sumIdx_congr; intro is
+  rw [sumIdx_comm]
+  apply sw_sumIdx_congr; intro js
+  rw [← sumIdx_mul_left]
+  apply sw_sumIdx_congr; intro ks
+  ring
+
+/-! ### `_LinearOp.matvec` versus `_local_product` -/
+
+theorem kl_linop (PL PR : Phi3 α) (A u : Core α) (l m L : Nat) :
+    linopMatvec PL PR A u l m L = localProduct PL PR A u l m L := by
+  simp only [linopMatvec, localProduct]
+  simp only [← sumTo_mul_right]
+  -- [R S n s r] → [s r n S R]
+  rw [kl_sw2, kl_sw1, sumTo_comm]
+  rw [kl_sw3, kl_sw2, kl_sw1]
+  rw [kl_sw3, kl_sw2]
+  rw [kl_sw3]
+  refine sumTo_congr fun s _ => sumTo_congr fun r _ => sumTo_congr fun n _ =>
+    sumTo_congr fun S _ => sumTo_congr fun R _ => ?_
+  ring
+
+/-! ### concrete order-3 trains for the non-vacuity examples of C11 / C12 -/
+
+/-- tensor train, modes 2,3,2, ranks 1,2,2,1 (the test side `x`) -/
+def kl_x0 : Core Int := ⟨1, 2, 1, 2, fun _ i _ b => (i + b : Int)⟩
+def kl_x1 : Core Int := ⟨2, 3, 1, 2, fun a i _ b => (a * i + b - 1 : Int)⟩
+def kl_x2 : Core Int := ⟨2, 2, 1, 1, fun a i _ _ => (a + 2 * i : Int)⟩
+/-- operator train, row modes 2,3,2, column modes 3,2,2, ranks 1,2,3,1 -/
+def kl_A0 : Core Int := ⟨1, 2, 3, 2, fun _ i j b => (i + 2 * j + b : Int)⟩
+def kl_A1 : Core Int := ⟨2, 3, 2, 3, fun a i j b => (a * i - j + b : Int)⟩
+def kl_A2 : Core Int := ⟨3, 2, 2, 1, fun a i j _ => (a + i * j - 1 : Int)⟩
+/-- tensor train, modes 3,2,2, ranks 1,3,2,1 (the solution side `y`) -/
+def kl_y0 : Core Int := ⟨1, 3, 1, 3, fun _ i _ b => (i * b + 1 : Int)⟩
+def kl_y1 : Core Int := ⟨3, 2, 1, 2, fun a i _ b => (a + i - b : Int)⟩
+def kl_y2 : Core Int := ⟨2, 2, 1, 1, fun a i _ _ => (2 * a + i : Int)⟩
+/-- tensor train, modes 2,3,2, ranks 1,3,2,1 (the right-hand side `b`) -/
+def kl_b0 : Core Int := ⟨1, 2, 1, 3, fun _ i _ b => (i - b : Int)⟩
+def kl_b1 : Core Int := ⟨3, 3, 1, 2, fun a i _ b => (a + i * b : Int)⟩
+def kl_b2 : Core Int := ⟨2, 2, 1, 1, fun a i _ _ => (a - i + 1 : Int)⟩
+/-- operator train, row modes 3,2,2, column modes 2,2,3, ranks 1,2,2,1 (the factor `B`) -/
+def kl_B0 : Core Int := ⟨1, 3, 2, 2, fun _ i j b => (i - j + b : Int)⟩
+def kl_B1 : Core Int := ⟨2, 2, 2, 2, fun a i j b => (a + i * j - b : Int)⟩
+def kl_B2 : Core Int := ⟨2, 2, 3, 1, fun a i j _ => (a * j + i : Int)⟩
+/-- operator train, row modes 2,3,2, column modes 2,2,3, ranks 1,2,3,1 (the product iterate `X`) -/
+def kl_X0 : Core Int := ⟨1, 2, 2, 2, fun _ i j b => (i + j - b : Int)⟩
+def kl_X1 : Core Int := ⟨2, 3, 2, 3, fun a i j b => (a - i + j * b : Int)⟩
+def kl_X2 : Core Int := ⟨3, 2, 3, 1, fun a i j _ => (a + i - j : Int)⟩
+
 end TT
